@@ -75,6 +75,36 @@ func fmDrawRange() (int, int, bool) {
 	return fmRange.lo, fmRange.hi, fmRange.ok
 }
 
+// nestLimit is the generator's nesting limit (`const depthLimit = N` in its
+// source): a message at nesting depth <= N is generated in full, so its scalar
+// lists obey NoEmptyLists, and its message-typed fields (whose values sit one
+// level deeper) obey the options at depth <= N-1. If the constant cannot be
+// read, 8 is assumed, which only makes the check more lenient.
+var nestLim struct {
+	once sync.Once
+	n    int
+}
+
+func nestLimit() int {
+	nestLim.once.Do(func() {
+		nestLim.n = 8
+		repo := os.Getenv("VERIF_REPO")
+		if repo == "" {
+			repo = "/repo"
+		}
+		src, err := os.ReadFile(filepath.Join(repo, "rapidproto", "rapidproto.go"))
+		if err != nil {
+			return
+		}
+		if m := regexp.MustCompile(`(?m)^const depthLimit = (\d+)$`).FindSubmatch(src); m != nil {
+			if n, err := strconv.Atoi(string(m[1])); err == nil && n >= 1 && n <= 64 {
+				nestLim.n = n
+			}
+		}
+	})
+	return nestLim.n
+}
+
 var fmPath = regexp.MustCompile(`^[a-z]+([.][a-z]+){0,2}$`)
 
 const sentinel = "☃sentinel:"
@@ -410,10 +440,10 @@ func c18Walk(m protoreflect.Message, opts rapidproto.GeneratorOptions, mask, dep
 		switch {
 		case fd.IsList():
 			l := m.Get(fd).List()
-			if opts.NoEmptyLists && fd.Message() == nil && l.Len() == 0 && depth <= 8 {
+			if opts.NoEmptyLists && fd.Message() == nil && l.Len() == 0 && depth <= nestLimit() {
 				return fmt.Errorf("%s: empty list drawn although NoEmptyLists is set", p)
 			}
-			if opts.NoEmptyLists && opts.DisallowNilMessages && fd.Message() != nil && l.Len() == 0 && depth <= 8 && !(isAny && mask&4 == 0) {
+			if opts.NoEmptyLists && opts.DisallowNilMessages && fd.Message() != nil && l.Len() == 0 && depth <= nestLimit()-1 && !(isAny && mask&4 == 0) {
 				return fmt.Errorf("%s: empty message list drawn although NoEmptyLists and DisallowNilMessages are set", p)
 			}
 			for j := 0; j < l.Len(); j++ {
@@ -443,7 +473,7 @@ func c18Walk(m protoreflect.Message, opts rapidproto.GeneratorOptions, mask, dep
 			}
 		case fd.Message() != nil:
 			if !m.Has(fd) {
-				if opts.DisallowNilMessages && fd.ContainingOneof() == nil && depth <= 8 && !(isAny && mask&4 == 0) {
+				if opts.DisallowNilMessages && fd.ContainingOneof() == nil && depth <= nestLimit()-1 && !(isAny && mask&4 == 0) {
 					return fmt.Errorf("%s: message field left nil although DisallowNilMessages is set", p)
 				}
 				continue
